@@ -183,6 +183,17 @@ theorem C18_report_roundtrip (s : Sig) (hwf : s.wf = true) (c : Call) (o i : Boo
   rw [symInitArgs_json s hwf F hB.sig hB.vaSome]
   exact C18_report s hwf c o i F n hc ha hF hn
 
+/-- The round-tripped functor and the clone also CALL like the original: `from_json(to_json(F))()`
+and `F.clone()()` have the outcome of `F()`, i.e. (by `C18_construct`) of `f(*a, **k)`. -/
+theorem C18_roundtrip_call {R : Type} (body : Assignment → R) (s : Sig) (hwf : s.wf = true) (c : Call)
+    (o i : Bool) (F : Functor) (n : Named) (hc : c.wf = true) (ha : AvoidsVarargsName s c)
+    (hF : functorInit s c o i = .ok F) (hn : nameArgs s c = .ok n) :
+    (functorCall true F.jsonRoundTrip Call.empty none none).map body = (pyCall s c).map body ∧
+    (functorCall true F.clone Call.empty none none).map body = (pyCall s c).map body := by
+  obtain ⟨hB, _, _⟩ := built_of_init s hwf c o i F n hc ha hF hn
+  rw [functorCall_json s hwf F n hB]
+  exact ⟨C18_construct body s hwf c o i F n hc ha hF hn, C18_construct body s hwf c o i F n hc ha hF hn⟩
+
 /-! ### Direct construction of a symbolized class -/
 
 /-- `Cls(*a, **k)` for `Cls = pg.symbolize(UserClass)` binds as the user's `__init__` does: what
